@@ -351,6 +351,16 @@ def build_cli(case):
     from cnfgen.clitools.cnfgen import cli
     fam = case['fam']
     d = tempfile.mkdtemp(prefix='c02_')
+    try:
+        return _build_cli_in(case, fam, d, cli, msgmod)
+    finally:
+        shutil.rmtree(d, ignore_errors=True)
+
+
+def _build_cli_in(case, fam, d, cli, msgmod):
+    import inspect
+    import random
+    import cnfgen
 
     def gfile(name, n, edges):
         path = os.path.join(d, name)
@@ -399,7 +409,6 @@ def build_cli(case):
         random.setstate(st)
         if hasattr(msgmod, '_prefix'):
             msgmod._prefix = ''
-        shutil.rmtree(d, ignore_errors=True)
 
 
 class Unsupported(Exception):
